@@ -162,6 +162,8 @@ fn is_children_empty(children: &[Node]) -> bool {
     for n in children {
         match n {
             Node::Comment(..) => {}
+            // (a text which is printed as nothing, e.g. `{{ "" }}`)
+            Node::Text(v) if is_empty_value(v) => {}
             Node::Element(..) | Node::Text(..) | Node::UnknownMetaTag(..) => {
                 return false;
             }
